@@ -451,9 +451,10 @@ class IPWirelessNetworkInterface(WirelessNetworkInterface, Layer3Interface, ABC)
         The method safely handles cases where the connected node might not have a default gateway set or the
         `default_gateway_hello` method is not defined, ignoring such errors to proceed without interruption.
         """
-        super().enable()
-        if hasattr(self._connected_node, "default_gateway_hello"):
+        enabled = super().enable()
+        if enabled and hasattr(self._connected_node, "default_gateway_hello"):
             self._connected_node.default_gateway_hello()
+        return enabled
 
     @abstractmethod
     def receive_frame(self, frame: Frame) -> bool:
